@@ -25,8 +25,15 @@ def gen_pool(seed: int, idx: int) -> dict:
     rng = rng_for(PROP, seed, idx)
     k = rng.randrange(2, 6)
     texts, kinds, clocky = [], [], []
-    for _ in range(k):
+    for j in range(k):
         r = rng.random()
+        if j > 0 and rng.random() < 0.45:
+            # a sibling of an earlier text: same header, small semantic edits
+            src = rng.randrange(len(texts))
+            texts.append(gen.variant(rng, texts[src]))
+            kinds.append("variant-of-%d" % src)
+            clocky.append(clocky[src])
+            continue
         if r < 0.55:
             d = gen.gen_project(rng, reports="always" if rng.random() < 0.6 else "mixed")
             kind = "gen"
